@@ -2,7 +2,10 @@ package main
 
 import (
 	"fmt"
+	"hash/fnv"
 	"strings"
+	"sync"
+	"sync/atomic"
 )
 
 // Term is a hash-consed SMT term. W==0 means Bool.
@@ -14,11 +17,33 @@ type Term struct {
 	Name   string
 	P1, P2 int
 	id     int
-	defd   bool // defined in solver
 }
 
-var termTab = map[string]*Term{}
-var termSeq int
+// The term table is shared by all workers (hash-consing makes syntactic
+// equality pointer equality); it is sharded to keep lock contention low.
+const termShards = 256
+
+type termShard struct {
+	mu sync.Mutex
+	m  map[string]*Term
+}
+
+var termTab [termShards]termShard
+var termSeq int64
+
+func init() {
+	for i := range termTab {
+		termTab[i].m = map[string]*Term{}
+	}
+}
+
+func resetTerms() {
+	for i := range termTab {
+		termTab[i].mu.Lock()
+		termTab[i].m = map[string]*Term{}
+		termTab[i].mu.Unlock()
+	}
+}
 
 func mask(w int) uint64 {
 	if w >= 64 {
@@ -34,12 +59,16 @@ func mk(op string, w int, c uint64, name string, p1, p2 int, args ...*Term) *Ter
 		fmt.Fprintf(&sb, "|%d", a.id)
 	}
 	k := sb.String()
-	if t, ok := termTab[k]; ok {
+	h := fnv.New32a()
+	h.Write([]byte(k))
+	sh := &termTab[h.Sum32()%termShards]
+	sh.mu.Lock()
+	defer sh.mu.Unlock()
+	if t, ok := sh.m[k]; ok {
 		return t
 	}
-	termSeq++
-	t := &Term{Op: op, W: w, Args: args, C: c, Name: name, P1: p1, P2: p2, id: termSeq}
-	termTab[k] = t
+	t := &Term{Op: op, W: w, Args: args, C: c, Name: name, P1: p1, P2: p2, id: int(atomic.AddInt64(&termSeq, 1))}
+	sh.m[k] = t
 	return t
 }
 
